@@ -6870,6 +6870,13 @@ func (c *linkerContext) generateIsolatedHash(chunk *chunkInfo, channel chan []by
 		hashWriteLengthPrefixed(hash, []byte(c.options.PublicPath))
 	}
 
+	// Also hash the legal comments that are written to a separate file. That
+	// file is named after this chunk, so its name must change when its content
+	// changes even if the chunk itself doesn't change.
+	if len(chunk.externalLegalComments) > 0 {
+		hashWriteLengthPrefixed(hash, chunk.externalLegalComments)
+	}
+
 	// Include the generated output content in the hash. This excludes the
 	// randomly-generated import paths (the unique keys) and only includes the
 	// data in the spans between them.
